@@ -515,7 +515,10 @@ class ObjectBase(EntityContainer):
         # unlink in the file first: a refusal (read-only workspace) leaves the object as it is
         self.workspace.remove_children(self, children)
 
-        for child in children:
+        # property groups first: a group that is leaving is not written again for its members
+        for child in sorted(
+            children, key=lambda item: not isinstance(item, PropertyGroup)
+        ):
             if child not in self._children:  # e.g. a group emptied by a previous removal
                 continue
 
